@@ -1,22 +1,31 @@
 import SnaxVerif.Lemmas.Phs
 import SnaxVerif.Lemmas.PhsKeeps
+import SnaxVerif.Lemmas.PhsHistory
+import SnaxVerif.Lemmas.PhsEncode
 /-! C20 — a merged processing element, configured as decoded, computes each kernel.
+
+Top-level results: `C20_for_bodies` (kernel bodies -> encode -> merge history of any length -> decode -> exact
+function; no structural hypothesis), `C20_history` (= `C20_statement`, for kernels satisfying `kwf`),
+`combine_keeps` (= `combine_keeps_statement`).
 
 `PE.wf` are the structural invariants of the IR (unique symbol names, a default region in every choose op,
 one switch block argument per choose / mux); `covers A K` is what merging `K` into `A` establishes (every
-operation of `K` is offered under the same name). Both are evaluated by the model on every graph of every
-generated history and reported in the correspondence output (`hyp_ok`). -/
+operation of `K` is offered under the same name). They are hypotheses of the single-graph theorems
+(`decode_sound`, `switch_count`, ...) and are PROVED for every graph a merge history reaches (`reachable_inv`)
+and every kernel `encode` returns (`encode_produces_kernels`); the driver still evaluates them on every graph of
+every generated history (`hyp_ok`) as a cross-check of the model. -/
 namespace SnaxVerif.C20
 open SnaxVerif.Phs
 
-/-- The property at full strength, for a merge history `k0 :: ks` (each a kernel body): every prefix of the
-history merges without error into an element `A`, every kernel merged so far decodes against `A`, the number
-of decoded values is `trueSwitches A`, and `A` under the decoded switches delivers exactly the values the
-kernel delivers (any value type, any operation semantics, any data inputs). -/
+/-- The property at full strength, for a merge history `k0 :: ks` of any length. Every kernel is a kernel as
+`convert_generic_body_to_phs` produces it (`kwf`: structural IR invariants, concrete, switches and operands
+refer to choose ops of the kernel) and has as many data ports as the first one. If the history merges into
+`A`, every kernel of the history decodes against `A`, the number of decoded values is `trueSwitches A`, and
+`A` under the decoded switches delivers exactly the values the kernel delivers (any value type, any
+operation semantics, any data inputs). Proved below: `C20_history`. -/
 def C20_statement : Prop :=
-  ∀ (k0 : PE) (ks : List PE) (A : PE), k0.isConcrete = true → (∀ k ∈ ks, k.isConcrete = true) →
-    (∀ k ∈ ks, k.argTys = k0.argTys) → k0.wf = true → (∀ k ∈ ks, k.wf = true) →
-    mergeAll k0 ks = .ok A →
+  ∀ (k0 : PE) (ks : List PE) (A : PE), k0.kwf = true → (∀ k, k ∈ ks → k.kwf = true) →
+    (∀ k, k ∈ ks → k.argTys.length = k0.argTys.length) → mergeAll k0 ks = .ok A →
     ∀ k, k ∈ k0 :: ks → ∃ sw, decode A k = .ok sw ∧ sw.length = A.trueSwitches ∧
       ∀ (V : Type) (sem : OpCode → List V → V) (inp : List V) (v : V),
         Computes sem k (fun _ => 0) inp k.yld v ↔ Computes sem A (A.assign sw) inp A.yld v
@@ -28,72 +37,21 @@ theorem decode_sound (A K : PE) (sw : List Nat) (hA : A.wf = true) (hK : uniqueI
     (hcov : covers A K = true) (h : decode A K = .ok sw)
     {V : Type} (sem : OpCode → List V → V) (inp : List V) (v : V)
     (hk : Computes sem K (fun _ => 0) inp K.yld v) : Computes sem A (A.assign sw) inp A.yld v := by
-  obtain ⟨_, hargs, pre, m, hpre, hsearch, hsw⟩ := decode_ok h
-  have hvalid := search_sound _ _ _ _ hsearch
-  obtain ⟨hvn, hvy⟩ := validMapping_true hvalid
-  have hne : ∀ (j : Nat) (a : Node), A.nodes[j]? = some a → a.ops ≠ [] := fun j a ha => (wf_node hA ha).1
-  obtain ⟨hplen, hpget⟩ := localChoices_get A K A.switches 0 pre hpre
-  -- the valuation seen by the hardware, switch by switch
-  have hassign : ∀ s u, A.switches[s]? = some u → ∃ q, localChoice A K s u = .ok q ∧ A.assign sw s = preVal m q := by
-    intro s u hu
-    obtain ⟨q, hq1, hq2⟩ := hpget s u hu
-    refine ⟨q, by simpa using hq2, ?_⟩
-    simp only [PE.assign, PE.expand, hsw, expandFrom_final A K m hne A.switches 0 pre hpre]
-    rw [List.getD_eq_getElem?_getD, List.getElem?_map, hq1]; rfl
-  have hmux : ∀ s, A.switches[s]? = some .mux → m s = A.assign sw s := by
-    intro s hs
-    obtain ⟨q, hq1, hq2⟩ := hassign s _ hs
-    simp only [localChoice] at hq1; injection hq1 with hq1; subst hq1
-    rw [hq2]; rfl
-  have hyl := validOperands_true K A m _ _ hvy
-  obtain ⟨l, hl1, hl2⟩ := hyl.2 0 (by simp) (by simp)
-  simp only [List.getElem_cons_zero] at hl1 hl2
-  rw [follow_congr A m (A.assign sw) hmux A.yld (wf_yield hA)] at hl2
-  refine sim sem A K (A.assign sw) inp hargs (wf_unique hA) ?_ K.yld v hk A.yld l hl1 hl2
-  intro c k hn
-  have hmem : k ∈ K.nodes := List.mem_of_getElem? hn
-  obtain ⟨ai, a, hlook, ha, hvo⟩ := validNodes_true K A m K.nodes hvn k hmem
-  obtain ⟨a', ha', hid⟩ := lookup_some hlook
-  rw [ha] at ha'; injection ha' with ha'; subst ha'
-  obtain ⟨hane, haok, hasw⟩ := wf_node hA ha
-  obtain ⟨hlen, hops⟩ := validOperands_true K A m _ _ hvo
-  refine ⟨ai, a, ha, hid, ?_, hlen, ?_⟩
-  · -- the selected operation
-    intro op hop
-    obtain ⟨q, hq1, hq2⟩ := hassign a.sw _ hasw
-    rw [hq2]
-    have hopmem : op ∈ k.ops := List.mem_of_getElem? hop
-    have hcova : op ∈ a.ops := by
-      simp only [covers, List.all_eq_true] at hcov
-      have := hcov k hmem
-      simp only [coversNode, hlook, ha, List.all_eq_true, List.contains_eq_mem, decide_eq_true_eq] at this
-      exact this op hopmem
-    simp only [localChoice, ha] at hq1
-    split at hq1
-    next h1 =>
-      injection hq1 with hq1; subst hq1
-      simp only [preVal]
-      match hao : a.ops, h1 with
-      | [x], _ =>
-        rw [hao] at hcova
-        simp at hcova; subst hcova; rfl
-    next h1 =>
-      have hlk : K.lookup a.id = some c := by rw [hid]; exact lookup_of_get hK hn
-      simp only [hlk, hn] at hq1
-      have hhead : k.ops.head? = some op := by rw [List.head?_eq_getElem?]; exact hop
-      simp only [hhead] at hq1
-      split at hq1
-      next i hi =>
-        injection hq1 with hq1; subst hq1
-        simp only [preVal]
-        have := (idxOf_some op a.ops 0 i hi).2
-        simpa using this
-      · simp at hq1
-  · intro p h1 h2
-    obtain ⟨l', hl1', hl2'⟩ := hops p h1 h2
-    refine ⟨l', hl1', ?_⟩
-    rw [← follow_congr A m (A.assign sw) hmux _ (haok _ (List.getElem_mem h2))]
-    exact hl2'
+  obtain ⟨hargs, hnode, l, hl1, hl2⟩ := decode_facts A K sw hA hK hcov h
+  exact sim sem A K (A.assign sw) inp hargs (wf_unique hA) hnode K.yld v hk A.yld l hl1 hl2
+
+/-- **decode reflects** (full): conversely, the configured merged element delivers nothing the kernel does not
+deliver — with `decode_sound`, the two deliver exactly the same values on every input, also on inputs where
+neither delivers one. -/
+theorem decode_reflects (A K : PE) (sw : List Nat) (hA : A.wf = true) (hK : uniqueIds K.nodes = true)
+    (hcon : K.isConcrete = true) (hcov : covers A K = true) (h : decode A K = .ok sw)
+    {V : Type} (sem : OpCode → List V → V) (inp : List V) (v : V)
+    (ha : Computes sem A (A.assign sw) inp A.yld v) : Computes sem K (fun _ => 0) inp K.yld v := by
+  obtain ⟨hargs, hnode, l, hl1, hl2⟩ := decode_facts A K sw hA hK hcov h
+  refine sim_rev sem A K (A.assign sw) inp hargs (wf_unique hA) hnode ?_ A.yld v ha K.yld l hl1 hl2
+  intro c k hk
+  obtain ⟨⟨t, ht⟩, _⟩ := concrete_node hcon (List.mem_of_getElem? hk)
+  exact ⟨t, by simp [ht]⟩
 
 /-- the semantics is a function: a configured element delivers at most one value -/
 theorem computes_functional (A : PE) (swv : Nat → Nat) {V : Type} (sem : OpCode → List V → V) (inp : List V)
@@ -133,10 +91,13 @@ theorem search_mapping_complete (K A : PE) (l : List Nat) (m0 : Nat → Nat)
   obtain ⟨sol, hs⟩ := search_complete (validMapping K A) hne (validMapping_congr K A) l m0 hex
   exact ⟨sol, hs, search_sound _ _ _ _ hs⟩
 
-/-- full statement of "merging a further kernel keeps earlier kernels decodable" -/
+/-- full statement of "merging a further kernel keeps earlier kernels decodable": `Inv A` is the invariant of
+merged graphs (`Lemmas/PhsCombine.lean`; it holds for every kernel and is kept by every merge:
+`reachable_inv`), the merged kernel `G` only has to offer an operation in every choose op. Proved below:
+`combine_keeps`. -/
 def combine_keeps_statement : Prop :=
-  ∀ (A G A' K : PE) (sw : List Nat), A.wf = true → covers A K = true → decode A K = .ok sw →
-    combine A G = .ok A' → ∃ sw', decode A' K = .ok sw'
+  ∀ (A G A' K : PE) (sw : List Nat), Inv A → (∀ g, g ∈ G.nodes → g.ops ≠ []) → covers A K = true →
+    decode A K = .ok sw → combine A G = .ok A' → ∃ sw', decode A' K = .ok sw'
 
 /-- **combine keeps** (partial). Clauses:
 * `extends_clause`: the merged graph `A'` extends `A` the way `append_to_abstract_graph` extends it (same data
@@ -206,9 +167,138 @@ theorem combine_keeps_needs_extends_fails :
   have hd : decode A' K = .error .mappingNotFound := by decide
   rw [hd] at hsw'; cases hsw'
 
+/-- every graph a merge history reaches satisfies the invariant (and so `wf`, the hypothesis of
+`decode_sound` / `switch_count`), has the data ports of the first kernel, and covers every kernel merged -/
+theorem reachable_inv (k0 : PE) (ks : List PE) (A : PE) (h0 : k0.kwf = true) (hks : ∀ k, k ∈ ks → k.kwf = true)
+    (hm : mergeAll k0 ks = .ok A) :
+    Inv A ∧ A.wf = true ∧ A.argTys = k0.argTys ∧ ∀ k, k ∈ k0 :: ks → Routable A k ∧ covers A k = true := by
+  obtain ⟨hr0, hc0⟩ := routable_self h0
+  obtain ⟨hinv, hargs, hall⟩ := mergeAll_ok ks k0 A [k0] (inv_of_kernel h0)
+    (fun K hK => by simp at hK; subst hK; exact ⟨hr0, hc0⟩) hks hm
+  exact ⟨hinv, hinv.wf, hargs, fun k hk => hall k (by simpa using hk)⟩
+
+/-- **a merge establishes the extension relation** (discharges `extends_clause` of `combine_keeps_partial`) -/
+theorem combine_establishes_extends (A G A' : PE) (hinv : Inv A) (hG : ∀ g, g ∈ G.nodes → g.ops ≠ [])
+    (h : combine A G = .ok A') : Extends A A' ∧ Inv A' ∧ Routable A' G ∧ covers A' G = true := by
+  obtain ⟨hinv', hext, hr, hc⟩ := combine_ok hinv hG h
+  exact ⟨extends_of_ext hext, hinv', hr, hc⟩
+
+/-- **combine keeps** (full): merging a further kernel never makes an earlier kernel undecodable. -/
+theorem combine_keeps : combine_keeps_statement := by
+  intro A G A' K sw hinv hG hcov hdec hcomb
+  obtain ⟨hinv', hext, _, _⟩ := combine_ok hinv hG hcomb
+  obtain ⟨hcon, _⟩ := decode_ok hdec
+  refine combine_keeps_partial A A' K sw hdec (extends_of_ext hext) ?_
+  apply localChoices_ok hinv'.wf (covers_mono hext hcov) hcon
+  intro u hu j hj
+  obtain ⟨s, hs, hsu⟩ := List.getElem_of_mem hu
+  exact hinv'.swt s j (by rw [List.getElem?_eq_getElem hs, hsu, hj])
+
+/-- **C20 for merge histories of any length** (full): the statement above holds. -/
+theorem C20_history : C20_statement := by
+  intro k0 ks A h0 hks hargs hm k hk
+  obtain ⟨hinv, hwf, hA, hall⟩ := reachable_inv k0 ks A h0 hks hm
+  obtain ⟨hr, hc⟩ := hall k hk
+  have hkw : k.kwf = true := by
+    rcases List.mem_cons.mp hk with rfl | hk
+    · exact h0
+    · exact hks k hk
+  have hlen : k.argTys.length = A.argTys.length := by
+    rw [hA]
+    rcases List.mem_cons.mp hk with rfl | hk
+    · rfl
+    · exact hargs k hk
+  obtain ⟨hkwf, hcon, _, _⟩ := kwf_parts hkw
+  have huK := wf_unique hkwf
+  obtain ⟨sw, hsw⟩ := decodable_of_routable hwf hinv.swt hinv.slots hcon huK hlen hc hr
+  refine ⟨sw, hsw, switch_count A k sw hwf hsw, fun V sem inp v => ⟨?_, ?_⟩⟩
+  · exact decode_sound A k sw hwf huK hc hsw sem inp v
+  · exact decode_reflects A k sw hwf huK hcon hc hsw sem inp v
+
+/-- full statement: `convert_generic_body_to_phs` returns a kernel in the sense of `C20_history` -/
+def encode_kwf_statement : Prop := ∀ (b : KBody) (K : PE), encode b = .ok K → K.kwf = true
+
+/-- **`encode` produces kernels** (full): a default region per choose op, plain operands, one switch per
+choose op in order, concreteness, operands refer to earlier choose ops — and the `get_id` names are pairwise
+distinct (a name is `key_counter`; the counter counts the earlier operations with the same key, and
+`key_counter` determines key and counter because the key ends in `_` and a decimal numeral contains none). -/
+theorem encode_produces_kernels : encode_kwf_statement :=
+  fun _ _ h => encode_kwf_full h
+
+/-- **`encode` preserves the function** (full): on every input of the right length, the encoded kernel
+delivers exactly the value of the `linalg.generic` body (`KBody.eval`, on the values of all block arguments),
+reading the used block arguments as its data ports — any number of operations, any arity, any semantics. -/
+theorem encode_exact (b : KBody) (K : PE) (h : encode b = .ok K)
+    {V : Type} (sem : OpCode → List V → V) (inp : List V) (hlen : inp.length = b.argTys.length) (v : V) :
+    b.eval sem inp = some v ↔ Computes sem K (fun _ => 0) (b.usedInputs inp) K.yld v := by
+  constructor
+  · exact encode_sound_aux sem h inp hlen v
+  · intro hc
+    obtain ⟨v', hv'⟩ := body_total sem b (encode_shape h).1 inp hlen
+    have := computes_det sem K _ _ _ _ (encode_sound_aux sem h inp hlen v' hv') _ hc
+    rw [hv', this]
+
+/-- **C20 down to the kernel bodies** (full): in a merge history as in `C20_history`, a kernel that is the
+encoding of body `b` decodes, and the merged element under the decoded switches computes exactly the function
+of `b`. -/
+theorem C20_history_bodies (k0 : PE) (ks : List PE) (A : PE) (h0 : k0.kwf = true)
+    (hks : ∀ k, k ∈ ks → k.kwf = true) (hargs : ∀ k, k ∈ ks → k.argTys.length = k0.argTys.length)
+    (hm : mergeAll k0 ks = .ok A) (b : KBody) (k : PE) (hk : k ∈ k0 :: ks) (hb : encode b = .ok k) :
+    ∃ sw, decode A k = .ok sw ∧ sw.length = A.trueSwitches ∧
+      ∀ (V : Type) (sem : OpCode → List V → V) (inp : List V), inp.length = b.argTys.length → ∀ v : V,
+        b.eval sem inp = some v ↔ Computes sem A (A.assign sw) (b.usedInputs inp) A.yld v := by
+  obtain ⟨sw, h1, h2, h3⟩ := C20_history k0 ks A h0 hks hargs hm k hk
+  refine ⟨sw, h1, h2, fun V sem inp hlen v => ?_⟩
+  rw [encode_exact b k hb sem inp hlen v]
+  exact h3 V sem (b.usedInputs inp) v
+
+/-- **C20 for kernel bodies, no structural hypothesis left** (full): encode any list of `linalg.generic`
+bodies (`convert_generic_body_to_phs`), merge the kernels in the given order (`append_to_abstract_graph`); if
+nothing raises and the kernels have equally many data ports, then every kernel decodes against the merged
+element, the number of decoded values is `trueSwitches`, and the element under the decoded switches computes
+exactly the function of the corresponding body. Any number of kernels, operations, muxes; any value type,
+operation semantics and input. -/
+theorem C20_for_bodies (b0 : KBody) (bs : List KBody) (k0 : PE) (ks : List PE) (A : PE)
+    (h0 : encode b0 = .ok k0) (hs : mapExcept encode bs = .ok ks)
+    (hargs : ∀ k, k ∈ ks → k.argTys.length = k0.argTys.length) (hm : mergeAll k0 ks = .ok A)
+    (i : Nat) (b : KBody) (hb : (b0 :: bs)[i]? = some b) :
+    ∃ k sw, (k0 :: ks)[i]? = some k ∧ encode b = .ok k ∧ decode A k = .ok sw ∧ sw.length = A.trueSwitches ∧
+      ∀ (V : Type) (sem : OpCode → List V → V) (inp : List V), inp.length = b.argTys.length → ∀ v : V,
+        b.eval sem inp = some v ↔ Computes sem A (A.assign sw) (b.usedInputs inp) A.yld v := by
+  obtain ⟨_, hp⟩ := mapExcept_spec encode bs ks hs
+  have hkw : ∀ k, k ∈ ks → k.kwf = true := by
+    intro k hk
+    obtain ⟨p, hpl, hpk⟩ := List.getElem_of_mem hk
+    have hkp : ks[p]? = some k := by rw [List.getElem?_eq_getElem hpl, hpk]
+    -- ks[p] is the encoding of bs[p]
+    have hlen : ks.length = bs.length := (mapExcept_spec encode bs ks hs).1
+    obtain ⟨k', hk', he⟩ := hp p _ (List.getElem?_eq_getElem (by omega : p < bs.length))
+    rw [hkp] at hk'; injection hk' with hk'; subst hk'
+    exact encode_kwf_full he
+  have hfind : ∃ k, (k0 :: ks)[i]? = some k ∧ encode b = .ok k := by
+    cases i with
+    | zero => simp at hb; subst hb; exact ⟨k0, by simp, h0⟩
+    | succ i =>
+      obtain ⟨k, hk, he⟩ := hp i b (by simpa using hb)
+      exact ⟨k, by simpa using hk, he⟩
+  obtain ⟨k, hki, he⟩ := hfind
+  obtain ⟨sw, h1, h2, h3⟩ := C20_history_bodies k0 ks A (encode_kwf_full h0) hkw hargs hm b k
+    (List.mem_of_getElem? hki) he
+  exact ⟨k, sw, hki, he, h1, h2, h3⟩
+
+/-- **`PEOp.from_operations`** (full): the element it builds computes, under switch value `i`, operation `i` of
+its data ports, port `j` feeding operand `j` — any number of operations, any arity, any semantics. -/
+theorem from_operations_computes (ops : List (OpCode × List Ty × Ty)) (A : PE) (h : peFromOperations ops = .ok A)
+    (i : Nat) (name : OpCode) (tys : List Ty) (res : Ty) (hi : ops[i]? = some (name, tys, res))
+    {V : Type} (sem : OpCode → List V → V) (inp : List V) (hlen : inp.length = A.argTys.length) :
+    Computes sem A (fun _ => i) inp A.yld (sem name inp) :=
+  peFromOperations_computes h hi sem inp hlen
+
 /-! ### non-vacuity: a concrete two-kernel history -/
 
 section Examples
+def semInt0 (op : OpCode) (vs : List Int) : Int :=
+  if op = "arith.muli" then vs.getD 0 0 * vs.getD 1 0 else vs.getD 0 0 + vs.getD 1 0
 def i32 : Ty := ⟨"IntegerType", "i32"⟩
 /-- kernel 1: `(a*a) + b` -/
 def exK1 : PE :=
@@ -223,6 +313,31 @@ def exA : PE :=
    .mux 3 (.node 1) (.node 0), [.choose 0, .choose 1, .mux, .mux]⟩
 
 example : combine exK1 exK2 = .ok exA := by decide
+/-- hypotheses of `C20_history` / `reachable_inv` for this history (and the conclusion, instantiated) -/
+example : exK1.kwf = true ∧ exK2.kwf = true ∧ exK2.argTys.length = exK1.argTys.length ∧
+    mergeAll exK1 [exK2] = .ok exA := by decide
+example : ∃ sw, decode exA exK2 = .ok sw ∧ sw.length = exA.trueSwitches :=
+  let ⟨sw, h1, h2, _⟩ := C20_history exK1 [exK2] exA (by decide) (by decide) (by decide) (by decide) exK2 (by simp)
+  ⟨sw, h1, h2⟩
+/-- a body whose encoding is kernel 2: `%0 = muli %in0, %in1; yield %0` with an unused third block argument -/
+def exB2 : KBody := ⟨[i32, i32, i32], [⟨"arith.muli", [.arg 0, .arg 1], i32⟩], .res 0⟩
+example : (encode exB2).toOption.map (·.nodes.length) = some 1 ∧ exB2.eval semInt0 [3, 5, 7] = some 15 ∧
+    exB2.usedInputs [3, 5, 7] = [(3 : Int), 5] := by decide
+/-- body of kernel 1: `%0 = muli %in0, %in0; %1 = addi %0, %in1; yield %1` (third block argument unused) -/
+def exB1 : KBody :=
+  ⟨[i32, i32, i32], [⟨"arith.muli", [.arg 0, .arg 0], i32⟩, ⟨"arith.addi", [.res 0, .arg 1], i32⟩], .res 1⟩
+/-- hypotheses of `C20_for_bodies` hold for the history [exB1, exB2]: both encode, equally many data ports, the
+merge succeeds (and needs two muxes) -/
+example : (do
+    let k0 ← encode exB1
+    let ks ← mapExcept encode [exB2]
+    let A ← mergeAll k0 ks
+    pure (ks.all (fun k => k.argTys.length == k0.argTys.length) && A.trueSwitches == 2 && k0.kwf)
+      : Except Err Bool) = .ok true := by decide
+example : ∃ A, peFromOperations [("arith.addi", [i32, i32], i32), ("arith.muli", [i32, i32], i32)] = .ok A ∧
+    A.argTys.length = 2 := ⟨_, rfl, rfl⟩
+/-- hypotheses of `combine_keeps` / `combine_establishes_extends`: `Inv` holds for a kernel -/
+example : Inv exK1 := inv_of_kernel (by decide)
 /-- hypotheses of `decode_sound` / `decode_exact` / `switch_count` hold for both kernels of the history -/
 example : exA.wf = true ∧ uniqueIds exK2.nodes = true ∧ covers exA exK2 = true ∧ decode exA exK2 = .ok [1, 1] ∧
     exA.trueSwitches = 2 := by decide
